@@ -2159,3 +2159,130 @@ class PlainLeafNode(AutoSerialize):
 
 RegisteredKind.register(PlainLeafNode)
 CLASSES["PlainLeafNode"] = PlainLeafNode
+
+
+# ============================================================================= round 7 (C01): class identity of same-named classes
+# "yields an object of the same class": classes that share __name__ / __qualname__ but live in different modules (one of them
+# a subclass of its namesake), a class nested inside another class (qualname 'Outer.Params') next to the module-level 'Params',
+# names that are proper prefixes of one another, and a namesake of a class every other family loads (NodeA). The oracle
+# compares class OBJECTS (`type(loaded) is type(original)`) at every AutoSerialize node, then the ordinary value equality.
+from checks import _serial_twins_a as _twa  # noqa: E402
+from checks import _serial_twins_b as _twb  # noqa: E402
+from checks import _serial_twins_c as _twc  # noqa: E402
+
+TWIN_CLASSES = {
+    "a.Params": _twa.Params, "b.Params": _twb.Params, "c.Params(a.Params)": _twc.Params,
+    "a.Params2": _twa.Params2, "b.Params2": _twb.Params2, "a.Param": _twa.Param,
+    "a.Outer.Params": _twa.Outer.Params, "b.Outer.Params": _twb.Outer.Params,
+    "a.NodeA": _twa.NodeA, "s.NodeA": NodeA,
+}
+TWIN_PLACEMENTS = ["two_attributes", "list", "tuple", "dict", "first_is_root_second_nested", "attribute_and_list_of_nested_object"]
+TWIN_SESSIONS = ["root_then_root", "root_then_nested", "nested_then_root"]
+TWIN_ORDERS = ["save_load_save_load", "save_save_load_load", "save_save_load_second_first"]
+
+
+def twin_fullname(cls):
+    return f"{cls.__module__}.{cls.__qualname__}"
+
+
+def twin_is_inner(member):
+    return "." in TWIN_CLASSES[member].__qualname__
+
+
+def twin_obj(member, seed, k):
+    """An instance of the member class with three attributes (ndarray, int, str) that depend on the position k."""
+    o = TWIN_CLASSES[member]()
+    o.v = make_array("i16", (3,), seed + 11 * k + 1)
+    o.n = k
+    o.s = "twin" + "λ" * k
+    return o
+
+
+def twin_graph(first, second, placement, seed):
+    x, y = twin_obj(first, seed, 1), twin_obj(second, seed, 2)
+    if placement == "first_is_root_second_nested":
+        x.child = y
+        return x
+    r = Root()
+    r.a = make_array("f64", (2, 3), seed)
+    if placement == "two_attributes":
+        r.first, r.second = x, y
+    elif placement == "list":
+        r.l = [x, "s", y]
+    elif placement == "tuple":
+        r.l = (x, y)
+    elif placement == "dict":
+        r.d = {"first": x, "second": y, "k": -1}
+    elif placement == "attribute_and_list_of_nested_object":
+        r.first = x
+        r.c = NodeB()
+        r.c.l = [y]
+    else:
+        raise ValueError(placement)
+    return r
+
+
+def twin_session_graph(member, role, seed, k):
+    o = twin_obj(member, seed, k)
+    if role == "root":
+        return o
+    r = Root()
+    r.c = o
+    r.n = k
+    return r
+
+
+def twin_show(first, second, placement):
+    x, y = (f"<{m}>(v=i16[3], n, s)" for m in (first, second))
+    return {"two_attributes": f"Root(a, first={x}, second={y})", "list": f"Root(a, l=[{x}, 's', {y}])", "tuple": f"Root(a, l=({x}, {y}))",
+            "dict": f"Root(a, d={{'first': {x}, 'second': {y}, 'k': -1}})", "first_is_root_second_nested": f"<{first}>(v, n, s, child={y})",
+            "attribute_and_list_of_nested_object": f"Root(a, first={x}, c=NodeB(l=[{y}]))"}[placement]
+
+
+def class_identity_diff(expected, observed, path="x", out=None, seen=None):
+    """[{path, expected, observed}] for every AutoSerialize node of `expected` whose counterpart is not of the very same
+    class object (module and qualified name included in the record)."""
+    if out is None:
+        out, seen = [], set()
+    if id(expected) in seen or len(out) >= 6:
+        return out
+    if isinstance(expected, AutoSerialize):
+        seen.add(id(expected))
+        if type(observed) is not type(expected):
+            out.append({"path": path, "expected": twin_fullname(type(expected)), "observed": twin_fullname(type(observed))})
+            return out
+        for n in sorted(vars(expected)):
+            if n in vars(observed):
+                class_identity_diff(vars(expected)[n], vars(observed)[n], f"{path}.{n}", out, seen)
+    elif isinstance(expected, (list, tuple)) and isinstance(observed, (list, tuple)):
+        seen.add(id(expected))
+        for i, (e, g) in enumerate(zip(expected, observed)):
+            class_identity_diff(e, g, f"{path}[{i}]", out, seen)
+    elif isinstance(expected, dict) and isinstance(observed, dict):
+        seen.add(id(expected))
+        for k in sorted(expected, key=repr):
+            if k in observed:
+                class_identity_diff(expected[k], observed[k], f"{path}[{k!r}]", out, seen)
+    return out
+
+
+def class_names(obj, out=None, seen=None):
+    """Module-qualified class of every AutoSerialize node, in walk order (for outcome digests)."""
+    if out is None:
+        out, seen = [], set()
+    if id(obj) in seen:
+        return out
+    if isinstance(obj, AutoSerialize):
+        seen.add(id(obj))
+        out.append(twin_fullname(type(obj)))
+        for n in sorted(vars(obj)):
+            class_names(vars(obj)[n], out, seen)
+    elif isinstance(obj, (list, tuple)):
+        seen.add(id(obj))
+        for e in obj:
+            class_names(e, out, seen)
+    elif isinstance(obj, dict):
+        seen.add(id(obj))
+        for k in sorted(obj, key=repr):
+            class_names(obj[k], out, seen)
+    return out
